@@ -12,7 +12,9 @@ ANCHOR_FILES = ['selector_map.py', 'config.py']
 RULE = ('histories of 20-60 SelectorMap operations (set/pop/copy/clear + queries) on up to 3 live maps, '
         'names over a 3-letter component alphabet with 1-4 components; non-trivial = at least 2 live names '
         'share a component suffix at some query and at least one pop or copy precedes a query; '
-        'distinct = distinct canonical op list')
+        'distinct = distinct canonical op list; one parameter addressed through several spellings and APIs; the names '
+        'config_str() reports for functions, classes and registered methods whose class and method names recur in '
+        'other modules (structure compared with emitDoc of the mirror, every reported name resolved back)')
 TRUSTED_BASE = ['Lean 4.33 kernel', 'axioms ⊆ {propext, Classical.choice, Quot.sound}',
                 'JSON glue of Main.lean / Gin/Drv (str.split, join, ASCII identifier regex)',
                 'Python harness harness/props/c08.py', "CPython dict semantics (copy(), setdefault) are exercised, not modelled"]
@@ -166,7 +168,47 @@ def gen_api_case(rng):
   return {'dom': 'gin', 'ops': ops}
 
 
+def gen_reported_case(rng):
+  """Names reported by config_str() for functions, classes and registered methods whose class and method names
+  recur in other modules: every reported name has to resolve back to the entry it was printed for."""
+  import copy
+  regs = G.gen_registry(rng, rng.randint(2, 3))
+  ops = list(regs)
+  bindable = list(regs)
+  mop, cop = G.gen_class_with_method(rng, 40, module=rng.choice(['m', 'k']))
+  ops += [mop, cop]
+  bindable.append(mop)
+  r = rng.random()
+  if r < 0.7:   # the same class and method names in another module: 'Class.method' alone is ambiguous
+    om = 'k' if mop['module'] == 'm' else 'm'
+    mop2, cop2 = copy.deepcopy(mop), copy.deepcopy(cop)
+    mop2.update(module=om, obj=60, _selector=f"{om}.{cop['name']}.{mop['name']}")
+    cop2.update(module=om, obj=61, methods=[f"{om}.{mop['name']}"], _method_ops=[mop2], _pymodule=om,
+                _selector=f"{om}.{cop['name']}")
+    ops += [mop2, cop2]
+    bindable.append(mop2)
+  if r > 0.4:   # an unrelated class with the same method name: 'Class.method' is enough for it
+    mop3, cop3 = copy.deepcopy(mop), copy.deepcopy(cop)
+    mop3.update(module='solo', obj=70, _selector=f"solo.Solo.{mop['name']}")
+    cop3.update(name='Solo', module='solo', obj=71, methods=[f"solo.{mop['name']}"], _method_ops=[mop3], _pymodule='solo',
+                _selector='solo.Solo')
+    ops += [mop3, cop3]
+    bindable.append(mop3)
+  binds = []
+  for reg in bindable:
+    if reg.get('_api') != 'method' and rng.random() < 0.4:
+      continue
+    cls = [n for n, c in G.param_classes(reg).items() if c == 'valid']
+    if cls:
+      binds.append({'op': 'bind', 'scope': rng.choice(['', 'a', 'a/b']), 'sel': reg['_selector'], 'arg': rng.choice(cls),
+                    'val': G.gen_value(rng, 0), '_form': 'tuple', 'block': False})
+  return {'dom': 'gin', 'ops': ops + binds + [{'op': 'cfgdoc'}], '_order2': binds, '_regops': ops, '_width': [80, 4],
+          '_kind': 'reported', '_imports': []}
+
+
 def gen_cases(rng, tier, boost=1):
+  for k in range((150 if tier == 'quick' else 4000) * boost):
+    yield gen_reported_case(rng)
   n = (400 if tier == 'quick' else 6000) * boost
   for k in range(n):
     yield gen_case(rng, rng.randint(20, 60) if k % 10 else rng.randint(2, 8))
@@ -175,6 +217,11 @@ def gen_cases(rng, tier, boost=1):
 
 
 def run_impl(case):
+  if case.get('_kind') == 'reported':
+    from props import c06
+    out = c06.run_impl(case)
+    out['registered'] = [o['_selector'] for o in case['_regops']]
+    return out
   if case['dom'] == 'gin':
     return gindom.run_impl(case)
   from gin import selector_map
@@ -228,6 +275,9 @@ def to_driver(case, impl):
 
 
 def compare(case, impl, model):
+  if case.get('_kind') == 'reported':
+    from props import c06
+    return c06.compare(case, impl, model)
   if case['dom'] == 'gin':
     return gindom.compare(case, impl, model)
   a, b = impl['out'], model.get('out')
@@ -249,6 +299,24 @@ def _matches(keys, q):
 
 def oracle(case, impl):
   """Naive set-of-names statement of C08 evaluated on the implementation's answers."""
+  if case.get('_kind') == 'reported':
+    if 'serialise_error' in impl:
+      return f'config_str raised {impl["serialise_error"]}'
+    names = impl['registered']
+    bound = sorted({(o['scope'], o['sel']) for o in case['_order2']})
+    heads = [sc[0] for sc in impl['out'][-1]['ok']['sections']]
+    resolved = []
+    for h in heads:
+      scope, _, name = h.rpartition('/')
+      m = _matches(names, name)
+      if len(m) != 1:
+        return f'reported name {name!r} (section {h!r}) resolves to {m}'
+      resolved.append((scope, m[0]))
+    if sorted(resolved) != bound:
+      return f'sections resolve to {sorted(resolved)} but the bound entries are {bound}'
+    if impl.get('reparse') != 'ok':
+      return f'the config string does not parse back: {impl.get("reparse")}'
+    return None
   if case['dom'] == 'gin':
     return refmodel.check_history(case, impl, {'bind', 'query', 'getb', 'getbq', 'config', 'finalize', 'locked'})
   maps = {}
@@ -314,6 +382,8 @@ def oracle(case, impl):
 
 
 def nontrivial(case, impl):
+  if case.get('_kind') == 'reported':
+    return len(case['_order2']) >= 2
   if case['dom'] == 'gin':
     return sum(1 for o in case['ops'] if o['op'] in ('query', 'hook')) >= 2
   maps, mutated = {}, False
@@ -338,6 +408,10 @@ def nontrivial(case, impl):
 
 
 def tally(stats, case, impl):
+  if case.get('_kind') == 'reported':
+    stats['reported:cases'] = stats.get('reported:cases', 0) + 1
+    stats['reported:sections'] = stats.get('reported:sections', 0) + impl.get('text', '').count('# Parameters for')
+    return
   if case['dom'] == 'gin':
     for op, res in zip(case['ops'], impl['out']):
       k = 'api:' + op['op'] + ':' + ('ok' if 'ok' in res else res['err'])
@@ -354,6 +428,8 @@ def tally(stats, case, impl):
 
 def shrink(case):
   ops = case['ops']
+  if case.get('_kind') == 'reported':
+    return
   if case['dom'] == 'gin':
     for k in range(len(ops) - 1, -1, -1):
       if ops[k]['op'] != 'register':
